@@ -3,7 +3,7 @@ from ..runner import Result
 from . import common
 
 PROFILE = {
-    "name": "c01", "max_clients": 6, "hostile_masks": False,
+    "name": "c01", "forge_prefix": True, "max_clients": 6, "hostile_masks": False,
     "weights": dict(privmsg=30, notice=18, join=16, part=5, kick=4, nick=6, cmode=12, end=2, quit=1,
                     connect=7, topic=1, invite=1, umode=1, away=2, oper=0.5, kill=0.5, wallops=0.5,
                     stats=0, die=0, squit=0, names=1, who=0.5, whois=0.5, list=0.3, lusers=0.3, ison=0.2,
